@@ -466,4 +466,152 @@ theorem move_turns_terminal_into_junction_witness :
       (fun r => (r.s.t.leaves, r.newSelf, r.s.t.junctionsOf)) = some ([3, 4], some 1, [1]) := by
   decide +kernel
 
+/-! ### joint non-vacuity: ALL hypotheses of a theorem on one instance, and the theorem instantiated on it -/
+
+-- non-vacuity (joint) of `contract_preserves_tree`, `contract_same_terminals`, `identify_deg`: the edge between the two
+-- junction nodes of `exTwoJunctions` (both of degree 3)
+example :
+    let e : HEdge := { id := 6, e1 := some 0, e2 := some 1, conn := some 1, hasFixedRoute := false }
+    Tree exTwoJunctions ∧ e ∈ exTwoJunctions.edges ∧ Joins e 0 1 ∧ 2 ≤ deg exTwoJunctions.graphE 0 ∧
+    2 ≤ deg exTwoJunctions.graphE 1 ∧ LeavesAre exTwoJunctions.graphV exTwoJunctions.graphE [2, 3, 4, 5] ∧
+    (∃ t', contract exTwoJunctions e.id 0 1 = some t' ∧ LeavesAre t'.graphV t'.graphE [2, 3, 4, 5]) ∧
+    (∃ t', IdentifySpec exTwoJunctions e 0 0 1 t' ∧ deg t'.graphE 0 = 4) := by
+  intro e
+  have ht : Tree exTwoJunctions := tree_of_checks (by decide) (by decide)
+  have he : e ∈ exTwoJunctions.edges := List.Mem.head _
+  have hj : Joins e 0 1 := Or.inl ⟨rfl, rfl⟩
+  have h0 : 2 ≤ deg exTwoJunctions.graphE 0 := by decide
+  have h1 : 2 ≤ deg exTwoJunctions.graphE 1 := by decide
+  have hT : LeavesAre exTwoJunctions.graphV exTwoJunctions.graphE [2, 3, 4, 5] :=
+    (AdaptaVerif.Props.C12.leavesAre_iff _ _ _).mp (by decide)
+  refine ⟨ht, he, hj, h0, h1, hT, contract_same_terminals ht he hj h0 h1 _ hT, ?_⟩
+  obtain ⟨t', _, _, hs⟩ := contract_tree ht he hj
+  refine ⟨t', hs, ?_⟩
+  rw [identify_deg hs (by decide) (by decide) 0]
+  decide
+
+-- non-vacuity (joint) of `contract_leaf_shift`: the leaf 2 of `exZeroTail` and its neighbour 1 of degree 2
+example :
+    let e : HEdge := { id := 6, e1 := some 1, e2 := some 2, conn := some 1, hasFixedRoute := false }
+    Tree exZeroTail ∧ e ∈ exZeroTail.edges ∧ Joins e 1 2 ∧ deg exZeroTail.graphE 1 = 2 ∧ deg exZeroTail.graphE 2 = 1 ∧
+    ∃ t', contract exZeroTail e.id 1 2 = some t' ∧ 1 ∈ t'.graphV ∧ deg t'.graphE 1 = 1 := by
+  intro e
+  have ht : Tree exZeroTail := tree_of_checks (by decide) (by decide)
+  have he : e ∈ exZeroTail.edges := List.Mem.tail _ (List.Mem.head _)
+  have hj : Joins e 1 2 := Or.inl ⟨rfl, rfl⟩
+  have h1 : deg exZeroTail.graphE 1 = 2 := by decide
+  have h2 : deg exZeroTail.graphE 2 = 1 := by decide
+  refine ⟨ht, he, hj, h1, h2, ?_⟩
+  obtain ⟨t', hc, hV⟩ := contract_preserves_tree ht he hj
+  obtain ⟨t'', hc', hl⟩ := contract_leaf_shift ht he hj h1 h2
+  rw [hc] at hc'; cases hc'
+  have hm : 1 ∈ t'.graphV := by rw [hV.2]; decide
+  exact ⟨t', hc, hm, (hl 1 hm).mpr (Or.inl rfl)⟩
+
+-- non-vacuity (joint) of `split_preserves_tree`, `split_same_terminals`
+example :
+    let e : HEdge := { id := 5, e1 := some 0, e2 := some 2, conn := some 2, hasFixedRoute := false }
+    Tree exStar ∧ e ∈ exStar.edges ∧ Joins e 0 2 ∧ LeavesAre exStar.graphV exStar.graphE [1, 2, 3] ∧
+    ∃ t', splitFromNodeAtPoint exStar e.id 0 ⟨5, 0⟩ = some (t', exStar.next, exStar.next + 1) ∧
+      LeavesAre t'.graphV t'.graphE [1, 2, 3] := by
+  intro e
+  have ht : Tree exStar := tree_of_checks (by decide) (by decide)
+  have he : e ∈ exStar.edges := List.Mem.tail _ (List.Mem.head _)
+  have hj : Joins e 0 2 := Or.inl ⟨rfl, rfl⟩
+  have hT : LeavesAre exStar.graphV exStar.graphE [1, 2, 3] := (AdaptaVerif.Props.C12.leavesAre_iff _ _ _).mp (by decide)
+  exact ⟨ht, he, hj, hT, split_same_terminals ht he hj ⟨5, 0⟩ _ hT⟩
+
+-- non-vacuity (joint) of `mergeStep_preserves_tree`, `mergeStep_same_terminals`: `exCommon`, self = the junction node 0
+-- (degree 3), e = 8 to the bend 2, e0 = 7 to the bend 1 (both of degree 2)
+example :
+    let e : HEdge := { id := 8, e1 := some 0, e2 := some 2, conn := some 2, hasFixedRoute := false }
+    let e0 : HEdge := { id := 7, e1 := some 0, e2 := some 1, conn := some 1, hasFixedRoute := false }
+    Tree exCommon ∧ e ∈ exCommon.edges ∧ Joins e 0 2 ∧ e0 ∈ exCommon.edges ∧ e0.id ≠ e.id ∧ Joins e0 0 1 ∧
+    2 ≤ deg exCommon.graphE 1 ∧ 2 ≤ deg exCommon.graphE 2 ∧ 3 ≤ deg exCommon.graphE 0 ∧
+    LeavesAre exCommon.graphV exCommon.graphE [3, 4, 5] ∧
+    ∃ t', mergeStep exCommon e.id 1 2 = some t' ∧ LeavesAre t'.graphV t'.graphE [3, 4, 5] := by
+  intro e e0
+  have ht : Tree exCommon := tree_of_checks (by decide) (by decide)
+  have he : e ∈ exCommon.edges := List.Mem.tail _ (List.Mem.head _)
+  have hj : Joins e 0 2 := Or.inl ⟨rfl, rfl⟩
+  have he0 : e0 ∈ exCommon.edges := List.Mem.head _
+  have hne : e0.id ≠ e.id := by decide
+  have hj0 : Joins e0 0 1 := Or.inl ⟨rfl, rfl⟩
+  have h1 : 2 ≤ deg exCommon.graphE 1 := by decide
+  have h2 : 2 ≤ deg exCommon.graphE 2 := by decide
+  have h3 : 3 ≤ deg exCommon.graphE 0 := by decide
+  have hT : LeavesAre exCommon.graphV exCommon.graphE [3, 4, 5] := (AdaptaVerif.Props.C12.leavesAre_iff _ _ _).mp (by decide)
+  exact ⟨ht, he, hj, he0, hne, hj0, h1, h2, h3, hT, mergeStep_same_terminals ht he hj he0 hne hj0 h1 h2 h3 _ hT⟩
+
+-- non-vacuity (joint) of the `removeZeroLengthEdges_*` theorems: ALL hypotheses on `exTwoJunctions`, a traversal that
+-- returns and does contract (6 nodes → 5), the theorems instantiated on it
+example :
+    let s : Imp := mkImp exTwoJunctions [(1, 0), (2, 1)] [1] true
+    Tree s.t ∧ NoLeafZero s.t ∧ JInv s ∧ s.keepAttrs = true ∧ LeavesAre s.t.graphV s.t.graphE [2, 3, 4, 5] ∧
+    ∃ s', rzleNode 100 s 0 none = some s' ∧ s'.t.nodes.length = 5 ∧ Tree s'.t ∧
+      LeavesAre s'.t.graphV s'.t.graphE [2, 3, 4, 5] ∧ JInv s' ∧ s'.delJ = [2] ∧ ¬ Carried s'.t 2 ∧
+      (∀ n' ∈ s'.t.nodes, n'.edges.length = 1 → ∃ n ∈ s.t.nodes, n.edges.length = 1 ∧ n.point = n'.point) := by
+  intro s
+  have ht : Tree s.t := tree_of_checks (by decide) (by decide)
+  have hz : NoLeafZero s.t := noLeafZerob_sound ht.1 (by decide +kernel)
+  have hi : JInv s := jinvb_sound (by decide)
+  have hT : LeavesAre s.t.graphV s.t.graphE [2, 3, 4, 5] := (AdaptaVerif.Props.C12.leavesAre_iff _ _ _).mp (by decide)
+  have hd : (rzleNode 100 s 0 none).map (fun s' => (s'.t.nodes.length, s'.delJ)) = some (5, [2]) := by decide +kernel
+  refine ⟨ht, hz, hi, rfl, hT, ?_⟩
+  match h : rzleNode 100 s 0 none with
+  | none => rw [h] at hd; cases hd
+  | some s' =>
+    rw [h] at hd
+    simp only [Option.map_some, Option.some.injEq, Prod.mk.injEq] at hd
+    have hb := removeZeroLengthEdges_junction_bookkeeping ht hi h
+    have ha := removeZeroLengthEdges_keeps_terminal_attrs ht rfl h
+    refine ⟨s', rfl, hd.1, removeZeroLengthEdges_preserves_tree ht h,
+      (removeZeroLengthEdges_same_terminals ht hz _ hT h).2.2, hb.1, hd.2, hb.2.2.1 2 (by rw [hd.2]; exact List.Mem.head _), ?_⟩
+    intro n' hn' hl
+    obtain ⟨n, hn, h1, _, h3⟩ := ha n' hn' hl
+    exact ⟨n, hn, h1, h3⟩
+
+-- non-vacuity (joint) of the `moveJunction_*` theorems: ALL hypotheses on `exCommon` (junction 1 at node 0), a move that
+-- does happen (6 nodes stay 6: one split, one merge; `newSelf = some 1`), the theorems instantiated on it
+example :
+    let s : Imp := mkImp exCommon [(1, 0)] [1] false
+    Good s ∧ LeavesAre s.t.graphV s.t.graphE [3, 4, 5] ∧
+    (∀ self, s.junctions.find? (fun p => p.1 == 1) = some (1, self) →
+      AdaptaVerif.Lemmas.HyperTreeMoveTerminals.MoveSafe s.t self) ∧
+    ∃ r, moveJunctionStep s 1 = some r ∧ r.newSelf = some 1 ∧ Tree r.s.t ∧ LeavesAre r.s.t.graphV r.s.t.graphE [3, 4, 5] ∧
+      JInv r.s ∧ r.s.delJ = s.delJ ∧ Rewrites s r.s ∧ Good r.s := by
+  intro s
+  have ht : Tree s.t := tree_of_checks (by decide) (by decide)
+  have hi : JInv s := jinvb_sound (by decide)
+  have hF : AdaptaVerif.Lemmas.HyperTreeMove.JFresh s := ⟨by decide, by decide⟩
+  have hN : AdaptaVerif.Lemmas.HyperTreeMove.NewJFresh s := fun j hj => by cases hj
+  have hg : Good s := ⟨ht, hi, hF, hN⟩
+  have hT : LeavesAre s.t.graphV s.t.graphE [3, 4, 5] := (AdaptaVerif.Props.C12.leavesAre_iff _ _ _).mp (by decide)
+  have hsafe : ∀ self, s.junctions.find? (fun p => p.1 == 1) = some (1, self) →
+      AdaptaVerif.Lemmas.HyperTreeMoveTerminals.MoveSafe s.t self := by
+    intro self hf
+    have : self = 0 := by
+      have h0 : s.junctions.find? (fun p => p.1 == 1) = some (1, 0) := by decide
+      rw [h0] at hf; simp at hf; exact hf.symm
+    subst this
+    show AdaptaVerif.Lemmas.HyperTreeMoveTerminals.MoveSafe exCommon 0
+    unfold AdaptaVerif.Lemmas.HyperTreeMoveTerminals.MoveSafe
+    decide +kernel
+  have hd : (moveJunctionStep s 1).map (fun r => r.newSelf) = some (some 1) := by decide +kernel
+  refine ⟨hg, hT, hsafe, ?_⟩
+  match h : moveJunctionStep s 1 with
+  | none => rw [h] at hd; cases hd
+  | some r =>
+    rw [h] at hd
+    simp only [Option.map_some, Option.some.injEq] at hd
+    have hb := moveJunction_junction_bookkeeping ht hi hF hN h
+    have hrw : Rewrites s r.s := Rewrites.step (Rewrites.refl s) (Rewrite.move h)
+    exact ⟨r, rfl, hd, moveJunction_preserves_tree ht h, moveJunction_same_terminals ht hsafe hT h, hb.1, hb.2.2.2.2.1,
+      hrw, (improve_junction_bookkeeping hg hrw).1⟩
+
+-- non-vacuity of `moveJunctionFully_preserves_tree`: the caller's loop returns on `exCommon` (junction ends at node 1)
+example : (moveJunctionFully 10 (mkImp exCommon [(1, 0)] [1] false) 1).map (fun s => (s.t.nodes.length, s.t.leaves, s.junctions)) =
+    some (6, [3, 4, 5], [(1, 1)]) := by
+  decide +kernel
+
 end AdaptaVerif.Props.C12Ops
